@@ -200,7 +200,8 @@ def run_case(case, work, rec):
         g["names"] = ["density", "temp"] + [f"Y({s})" for s in sp] + ["rhoh"]
     m = gen.gen_model(**g)
     path = os.path.join(work, "plt00020")
-    gen.write_plotfile(m, path)
+    gen.write_plotfile(m, path, ref_ratio_extra=rng.choice([0, 0, 1, 3]), trailing_blank=rng.random() < 0.7,
+                       close_blank=rng.random() < 0.3, floatfmt=rng.choice(["repr", "17g"]))
     names = m.names
     digest = common.sha(g)
     rec.sample({"plotfile": gen.describe(m), "kind": case["kind"]})
